@@ -4,11 +4,13 @@ from .. import mir as M
 from ..facts import walk
 
 META = ("other",
-        "C10.R1 every write that can grow/replace InsertStatement.source in values()/select_from() is dominated by the "
+        "C10.R1 values() / select_from() interpreted on the complete length abstraction (columns 0..3 x width 0..3 x source "
+        "kind; result, error payload, nothing else touched) with a small-scope obligation; as fallback every write that can grow/replace InsertStatement.source in values()/select_from() is dominated by the "
         "equal edge of the comparison columns.len() vs <the very row / select list that is stored>.len() (MIR dominators + "
         "operand origin); R2 the mismatch edge returns Err(ColValNumMismatch{col_len: columns.len(), val_len: row.len()}) and "
-        "no write to *self can precede any Err return; R3 who-may-write columns/source/default_values; R4 renderer iterates "
-        "rows and cells forward; R5 history closure: a method changing columns after rows exist must clear or re-validate",
+        "no write to *self can precede any Err return; R3 who-may-write columns/source/default_values; R4 prepare_insert_statement interpreted on "
+        "statements of 1..3 rows of 1..3 marker cells: every row whole and in order, every cell through one renderer call on "
+        "that very cell (fallback: shape of the rows loop); R5 history closure: a method changing columns after rows exist must clear or re-validate",
         "one obligation per write site, comparison, error aggregate, field mutation in the crate, renderer call")
 
 INS = "crate::query::insert::InsertStatement"
@@ -505,6 +507,8 @@ def table_values(run, f, cfg):
                         bad.append(tag)
     except (Unsupported, Diverged) as e:
         run.notes.append("InsertStatement::values outside the interpreter's fragment (%s): MIR dominance rules applied instead" % e)
+        from .. import scope
+        scope.check_bound(run, "C10.R1", "values:scope", f, [VALUES], 3, cfg, "values() (outside the interpreter's fragment)")
         return False
     run.ob("C10.R1", "values:table", not bad,
            "values() tabulated on %d cells (columns 0..3 x row length 0..3 x current source): a row of another length is refused with "
